@@ -200,6 +200,11 @@ EXTRA9 = {
 }
 for k, v in EXTRA9.items():
     CHECKS[k]['text'] += v
+EXTRA10 = {
+ 'C04': " C04R also lets the concurrent writer jump over the slots of the packets being retransmitted (gap 1 in a ring of 2 at deviation bound 4; gap 4 in a ring of 4 with Unbind) and then come round the ring onto them; the order of writes to the transport is part of the schedule fingerprint.",
+}
+for k, v in EXTRA10.items():
+    CHECKS[k]['text'] += v
 checks = []
 for pid in sorted(CHECKS):
     c = CHECKS[pid]
